@@ -740,70 +740,56 @@ mod harnesses {
         let expected_len = pre.k + amount + extra_nl + 1;
         assert!(res.len() == expected_len, "token: number of tokens returned");
 
-        let mut indents: usize = 0;
-        let mut dedents: usize = 0;
-        macro_rules! check_at {
-            ($i:expr) => {
-                if CONTENT && $i < res.len() {
-                    let lex = &res[$i];
-                    let kd = kind_of(&lex.token);
-                    if kd == K::Indent {
-                        indents += 1;
-                    }
-                    if kd == K::Dedent {
-                        dedents += 1;
-                    }
-                    if $i < first {
-                        assert!(
-                            is_pending(lex, pre.k - 1),
-                            "token: first the most recent pending newline"
-                        );
-                    } else if $i < first + amount {
-                        assert!(
-                            kd == (if up { K::Indent } else { K::Dedent }) && at(lex, pre.pos),
-                            "token: then |level(l)-level(c)| Indent (l >= c) or Dedent (l < c) at the caret"
-                        );
-                    } else if $i < first + amount + extra_nl {
-                        assert!(
-                            kd == K::NL && at(lex, pre.pos),
-                            "token: a newline at the caret closes the dedents"
-                        );
-                    } else if $i < first + amount + extra_nl + remaining {
-                        assert!(
-                            is_pending(lex, $i - (first + amount + extra_nl)),
-                            "token: then the remaining pending newlines in order"
-                        );
-                    } else {
-                        assert!($i + 1 == res.len(), "token: the token itself is last");
-                        assert!(kd == kind, "token: kind of the token itself");
-                        assert!(at(lex, pre.pos), "token: token starts at the caret");
-                        assert!(
-                            lex.pos.end.line == pre.pos.line
-                                && lex.pos.end.pos == pre.pos.pos + w,
-                            "token: token ends width columns further"
-                        );
-                    }
-                }
-            };
-        }
-        check_at!(0);
-        check_at!(1);
-        check_at!(2);
-        check_at!(3);
-        check_at!(4);
-        check_at!(5);
-        check_at!(6);
-        assert!(MAX_RES == 7, "check_at! unrolling matches MAX_RES");
-        assert!(res.len() <= MAX_RES, "token: result within unrolled bound");
+        assert!(res.len() <= MAX_RES, "token: result length within bound");
 
-        assert!(
-            !CONTENT || indents == if up { amount } else { 0 },
-            "token: number of Indent tokens == level(l)-level(c) if l >= c else 0"
-        );
-        assert!(
-            !CONTENT || dedents == if up { 0 } else { amount },
-            "token: number of Dedent tokens == level(c)-level(l) if l < c else 0"
-        );
+        // Content: the role of EVERY position, stated for one symbolic index i < len (a universally
+        // quantified index; reading all MAX_RES positions in one harness ran the solver out of
+        // 12 GB). The role-by-index statement fixes the kind at every index, hence also the number
+        // of Indent tokens (= a if l >= c else 0) and of Dedent tokens (= a if l < c else 0).
+        if CONTENT {
+            let i: usize = kani::any();
+            kani::assume(i < res.len()); // B6: i ranges over all positions of the result
+            let lex = &res[i];
+            let kd = kind_of(&lex.token);
+            if i < first {
+                assert!(
+                    is_pending(lex, pre.k - 1),
+                    "token: first the most recent pending newline"
+                );
+            } else if i < first + amount {
+                assert!(
+                    kd == (if up { K::Indent } else { K::Dedent }),
+                    "token: then |level(l)-level(c)| Indent (l >= c) or Dedent (l < c)"
+                );
+                assert!(at(lex, pre.pos), "token: Indent/Dedent positioned at the caret");
+            } else if i < first + amount + extra_nl {
+                assert!(
+                    kd == K::NL && at(lex, pre.pos),
+                    "token: a newline at the caret closes the dedents"
+                );
+            } else if i < first + amount + extra_nl + remaining {
+                assert!(
+                    is_pending(lex, i - (first + amount + extra_nl)),
+                    "token: then the remaining pending newlines in order"
+                );
+            } else {
+                assert!(i + 1 == res.len(), "token: the token itself is last");
+                assert!(kd == kind, "token: kind of the token itself");
+                assert!(at(lex, pre.pos), "token: token starts at the caret");
+                assert!(
+                    lex.pos.end.line == pre.pos.line && lex.pos.end.pos == pre.pos.pos + w,
+                    "token: token ends width columns further"
+                );
+            }
+            kani::cover!(i == 0 && first == 1, "cover: index of popped newline");
+            kani::cover!(kd == K::Indent, "cover: index of an Indent");
+            kani::cover!(kd == K::Dedent, "cover: index of a Dedent");
+            kani::cover!(
+                i >= first + amount + extra_nl && i < first + amount + extra_nl + remaining,
+                "cover: index of a remaining pending newline"
+            );
+            kani::cover!(i + 1 == res.len(), "cover: index of the token itself");
+        }
 
         let (c2, l2, ttl2, pending2) = state.verif_view();
         assert!(c2 == pre.l, "token: cur_indent becomes line_indent");
@@ -1070,11 +1056,18 @@ mod harnesses {
     /// `impl` are not in that document and come from tokenize.rs `as_op_or_id`.
     macro_rules! keyword_table {
         ($s:ident; $( $kw:literal => $kind:ident ),* $(,)?) => {
-            $( if $s.as_bytes() == $kw.as_bytes() { Some(K::$kind) } else )* { None }
+            $( if $s.as_bytes() == $kw.as_bytes() {
+                // width() on a fresh concrete token of that kind, see `tok` above
+                let t = Token::$kind;
+                let w = t.width();
+                forget(t);
+                Some((K::$kind, w))
+            } else )* { None }
         };
     }
 
-    fn expected_keyword(s: &str) -> Option<K> {
+    /// keyword spelling -> (token kind, `Token::width()` of that kind)
+    fn expected_keyword(s: &str) -> Option<(K, usize)> {
         keyword_table!(s;
             "from" => From,
             "import" => Import,
@@ -1125,10 +1118,10 @@ mod harnesses {
         let tok = verif_as_op_or_id(String::from(s));
         let got = kind_of(&tok);
         match expected_keyword(s) {
-            Some(k) => {
+            Some((k, width)) => {
                 assert!(got == k, "as_op_or_id: keyword spelling gives its keyword token");
                 assert!(
-                    tok.width() == s.len(),
+                    width == s.len(),
                     "as_op_or_id: keyword token's canonical spelling has the input's length"
                 );
             }
